@@ -7,7 +7,8 @@ at ordinal anchors.  What is dropped / rewritten (exhaustive):
   * visibility qualifiers `pub` / `pub(crate)` on extracted fns, structs and struct fields
     (single-file crate; no semantic effect);
   * `-> T` becomes `-> (r: T)` when the overlay names the result;
-  * items not listed in the overlay are not copied at all.
+  * items not listed in the overlay are not copied at all;
+  * anchor `Bk/end;` appends `;` to a unit-typed tail expression so a proof block can follow it.
 No expression or statement inside a copied body is rewritten; overlay text is only *inserted*
 (between signature and body, before a `{` of a loop body, or before a statement).
 A missing item or anchor raises LostAnchor (driver: exit 2, undecided), never a violation.
@@ -301,7 +302,16 @@ def splice(fn, item):
         if bi >= len(blks):
             raise LostAnchor('fn %s: block %s missing' % (item['name'], b))
         ob, cb = blks[bi]
-        if s == 'end':
+        if s == 'end;':
+            # the block ends in a unit-typed tail expression: terminate it with ';' so that a proof
+            # block can follow (the only body rewrite the extractor ever performs; listed in the docstring)
+            off = cb
+            k = cb - 1
+            while body[k] in ' \t\r\n':
+                k -= 1
+            text = ';\n' + text
+            off = k + 1
+        elif s == 'end':
             off = cb
         else:
             st = stmt_starts(m, ob, cb)
